@@ -166,7 +166,19 @@ func RSABlind(r *core.Rand, j int, key *rsa.PrivateKey) []byte {
 		copy(out[k-20:], r.Bytes(20)) // leading zero bytes
 		out[k-1] |= 1
 	case 4:
-		return []byte{3} // short encoding of a small blind
+		// short encodings (fewer bytes than the modulus), also with a first byte larger than the modulus' first byte
+		switch (j / 8) % 3 {
+		case 0:
+			return []byte{3}
+		case 1:
+			return []byte{0xfd}
+		default:
+			b := make([]byte, k-1)
+			for i := range b {
+				b[i] = 0xff
+			}
+			return b
+		}
 	default:
 		x := new(big.Int).SetBytes(r.Bytes(k + 8))
 		x.Mod(x, new(big.Int).Sub(n, big.NewInt(2)))
